@@ -34,8 +34,8 @@ MQ = 16    # miri seeds, quick
 MT = 192   # miri seeds, thorough
 
 F_BATCHES = 4 + 4 + 256     # family F: exhaustive verdict assignments for 1..3 middlewares (x2 answers)
-H_QUICK = 164               # family H: 10 440 builder sequences (length <= 3) in chunks of 64
-H_THOROUGH = 2774           # 177 482 builder sequences (length <= 4)
+H_QUICK = 193               # family H: 12 350 builder sequences (length <= 3) in chunks of 64
+H_THOROUGH = 3474           # 222 302 builder sequences (length <= 4)
 
 PLAN = {
     "C01": {"quick": [native("A", 12, Q), native("B", 4, Q), miri("A", MQ // 2), miri("B", MQ // 2, count=3)], "thorough": [native("A", 24, T), native("B", 8, T), native("E", 8, T / 2), miri("A", MT), miri("B", MT // 4)]},
@@ -85,7 +85,7 @@ RULES = {
         "C14": "families D and B (+ witness W2): iterator consumer on its own thread racing 1-4 producers and stop(), iterator created at a random point before stop(); non-trivial iff >=1 item was consumed while producers were still dispatching and end-of-stream was reached; " + SCHED,
         "C15": "family B with drop(DroppableStore) as the stop operation and outstanding clones used by 1-6 threads; non-trivial as C04 plus >=1 clone used after the drop; " + SCHED,
         "C16": "family K (one SelectorSubscriber instance registered on two stores); family I: exhaustive enumeration of all sequences over {0,1,2} up to length 9 fed to a real SelectorSubscriber, plus family D (subscribe_with_selector on a live store); non-trivial iff the sequence/stream contains both a repeat and a change; distinct = enumeration length class or schedule fingerprint",
-        "C17": "family H: both constructors x every sequence over 17 builder calls up to length 3 (quick, 10 440 builds) / 4 (thorough, 177 482) plus random length 5-8, each compared with the last-setting model and every Ok result probed (thread name, chain order, middleware order, queue bound, drop behaviour); distinct = enumeration chunk of 64 builds (see builds for the count)",
+        "C17": "family H: both constructors x every sequence over 18 builder calls up to length 3 (quick, 12 350 builds) / 4 (thorough, 222 302) plus random length 5-8, each compared with the last-setting model and every Ok result probed (thread name, chain order, middleware order, queue bound, drop behaviour); distinct = enumeration chunk of 64 builds (see builds for the count)",
         "C18": "families A, B, C, E with a sampler thread; non-trivial iff >=2 dispatching threads and at least two of {drops, vetoes, effects, rejected dispatches} occurred; " + SCHED,
         "C19": "family K: two stores (equal or different configuration, possibly same name, shared subscriber object), interleaved clients, one stopped or dropped while the other is busy; non-trivial iff the survivor had reducer-context events or a backlog while the other was stopping; " + SCHED,
     },
